@@ -112,6 +112,26 @@ CLAIMED.update({
             "(complement recorded as finding F3 in DESIGN.md).", "DESIGN.md section 4 C05"),
 })
 
+CLAIMED.update({
+    "C11": ("proof", TECH + "; 2-safety by self-composition on the real function",
+            "CalculateLCOELCOHLCOC executed symbolically twice per configuration (216): all cost inputs and the "
+            "electricity purchase rate x k => every levelized cost x k; sale-price parameters changed => identical "
+            "levelized costs; heat output halved (the C02 postcondition of halving the end-use efficiency) => LCOH "
+            "doubled for all three economic models. Discharged by the ring normaliser over Sigma-normal forms.",
+            TRUSTED + "Not decided here: the Economics.Calculate-level scaling (correlation-based components are not "
+            "homogeneous), the strict NPV direction under price changes, and the add-on / zero-ITC / zero-grant "
+            "clauses (the latter follow from C03's proved CCap formula with the amounts set to 0).",
+            "DESIGN.md section 4 C11"),
+    "C18": ("proof", TECH + "; 2-safety by self-composition on the real function",
+            "Second run = first run with one input increased by delta >= 0: bottom-hole temperature does not decrease "
+            "with depth (1..4 segments) or with a gradient (1..2 segments); TDP reservoir temperature at every time "
+            "does not increase with the drawdown rate; well cost does not decrease with depth for all 17 correlations "
+            "within the declared depth range and on one side of the 500 m fallback; FCR and Standard levelized costs "
+            "do not decrease when capital cost or O&M increases (positive energy, 144 configurations).",
+            TRUSTED + "Not decided: initial production temperature vs flow (Ramey, needs an analytic lemma), NPV "
+            "monotonicity, BICYCLE levelized costs, 3/4-segment gradient monotonicity.", "DESIGN.md section 4 C18"),
+})
+
 NOT_APPLICABLE = {
     "C13": "independence/non-replication of Monte Carlo draws across forked pool workers is a schedule/process-history "
            "property of numpy's global RNG under fork; no per-call contract can state it (DESIGN.md section 6)",
